@@ -17,6 +17,21 @@ Proof.
   - destruct b; reflexivity.
 Qed.
 
+Lemma json_int_exact z : - two63 <= z < two63 -> json_int true z = z.
+Proof.
+  intros H. unfold json_int. destruct (Z.leb_spec (- two63) z); destruct (Z.ltb_spec z two63); cbn; try reflexivity; lia.
+Qed.
+
+Lemma roundtrip_n_ok t v : of_type t v -> roundtrip_n true true t v = Ok v.
+Proof.
+  destruct t, v; cbn [of_type]; try tauto; intros H; unfold roundtrip_n; cbn [coerce_store_n coerce_store read]; try reflexivity.
+  - rewrite json_int_exact by assumption. reflexivity.
+  - destruct b; reflexivity.
+Qed.
+
+Lemma representable_of_type t v : representable t v -> of_type t v.
+Proof. destruct t, v; cbn; try tauto. unfold two53, two63. lia. Qed.
+
 (* the old time binding keeps whole seconds only *)
 Lemma roundtrip_old t v :
   representable t v -> (forall s n, v = VTs s n -> n = 0) -> roundtrip false t v = Ok v.
@@ -61,8 +76,8 @@ Proof.
   induction h as [|o h IH]; intros s I; cbn; [assumption|]. apply IH. now apply tstep_inv.
 Qed.
 
-Lemma write_read_current h t v :
-  actual (trun true h) = Some t -> representable t v ->
+Lemma write_read_current_full h t v :
+  actual (trun true h) = Some t -> of_type t v ->
   snd (tstep true (fst (tstep true (trun true h) (TWrite v))) TRead) = Some (Ok v).
 Proof.
   intros A R. destruct (trun_inv h) as [Hw Hr]. set (s := trun true h) in *.
@@ -70,12 +85,17 @@ Proof.
   { destruct (cw s) as [c|] eqn:C; [|reflexivity]. assert (actual s = Some c) by (apply Hw; first [exact C|reflexivity]). congruence. }
   assert (Er : match cr s with Some c => c | None => t end = t).
   { destruct (cr s) as [c|] eqn:C; [|reflexivity]. assert (actual s = Some c) by (apply Hr; first [exact C|reflexivity]). congruence. }
-  pose proof (roundtrip_ok t v R) as RT. unfold roundtrip in RT.
-  destruct (coerce_store true t v) as [c|] eqn:CS; [|discriminate].
+  pose proof (roundtrip_n_ok t v R) as RT. unfold roundtrip_n in RT.
+  destruct (coerce_store_n true true t v) as [c|] eqn:CS; [|discriminate].
   assert (E1 : fst (tstep true s (TWrite v)) = mkT (Some t) (Some c) (Some t) (cr s)).
   { cbn [tstep]. rewrite A. cbn [fst]. rewrite Ew, CS. reflexivity. }
   rewrite E1. cbn [tstep actual held cr cw snd]. rewrite Er. f_equal. exact RT.
 Qed.
+
+Lemma write_read_current h t v :
+  actual (trun true h) = Some t -> representable t v ->
+  snd (tstep true (fst (tstep true (trun true h) (TWrite v))) TRead) = Some (Ok v).
+Proof. intros A R. apply (write_read_current_full h t v A). now apply representable_of_type. Qed.
 
 Definition stale_history : list top := [TCreate TInt; TWrite (VInt 7); TRead; TDrop; TCreate TStr].
 Lemma stale_refuted :
